@@ -57,6 +57,18 @@ class C12(InvProp):
                  {"path": "nodes/a.yml", "content": {"classes": ["neg"]}}, {"path": "nodes/b.yml", "content": {"applications": ["shared"]}},
                  {"path": "nodes/c.yml", "content": {"applications": ["other", "shared"]}}, {"path": "nodes/d.yml", "content": {"classes": ["neg"], "applications": ["x"]}}]
         out.append({"op": "inventory", "config": {}, "files": files, "repeat": 2})
+        # a class-name reference resolving to a RELATIVE name, used from classes in two directories:
+        # anything remembered per worker about "the class called .impl" is wrong for the other group
+        from .c01 import inv, cls
+        files = {"classes/defs.yml": cls("defs", impl=".impl"),
+                 "classes/x/entry.yml": cls("x.entry", ["${impl}"]), "classes/y/entry.yml": cls("y.entry", ["${impl}"]),
+                 "classes/x/impl.yml": cls("x.impl", which="x"), "classes/y/impl.yml": cls("y.impl", which="y")}
+        for i in range(20):
+            files["nodes/x%02d.yml" % i] = cls("x%02d" % i, ["defs", "x.entry"])
+            files["nodes/y%02d.yml" % i] = cls("y%02d" % i, ["defs", "y.entry"])
+        c = inv(files)
+        c["repeat"] = 1
+        out.append(c)
         for c in C13_CLAUSES:
             c = dict(c)
             c["repeat"] = 2
@@ -64,7 +76,7 @@ class C12(InvProp):
         return out + super().corpus()
 
     def cases(self, tier, seed):
-        N = 60 if tier == "quick" else 1500
+        N = 60 if tier == "quick" else 400
         for i in range(N):
             r = Rng(seed, "C12", i)
             c = GI.gen_inventory(r, n_classes=r.range(2, 6), shape=r.choice(["tree", "dag", "cyclic"]), n_nodes=r.range(2, 10),
@@ -81,6 +93,21 @@ class C12(InvProp):
                     cont = dict(src["content"])
                     cont["applications"] = ["big%d" % k] + ["~big%d" % ((k + d) % extra) for d in (1, 2, 3)]
                     c["files"].append({"path": "nodes/x%02d.yml" % k, "content": cont})
+                c["repeat"] = 1
+            if i % 6 == 3:
+                from .c01 import cls as _cls
+                from .. import genv as _G
+                groups = ["g%d" % k for k in range(r.range(2, 3))]
+                extra = [{"path": "classes/rdefs.yml", "content": {"parameters": _G.enc({"rimpl": r.choice([".rimpl", "..rimpl", ".sub.rimpl"])})}}]
+                for g in groups:
+                    extra.append({"path": "classes/%s/entry.yml" % g, "content": {"classes": ["${rimpl}"], "parameters": _G.enc({"entry": g})}})
+                    extra.append({"path": "classes/%s/rimpl.yml" % g, "content": {"parameters": _G.enc({"which": g, "wl": [g]})}})
+                    extra.append({"path": "classes/%s/sub/rimpl.yml" % g, "content": {"parameters": _G.enc({"which": g + ".sub"})}})
+                extra.append({"path": "classes/rimpl.yml", "content": {"parameters": _G.enc({"which": "root"})}})
+                for k in range(r.range(16, 40)):
+                    g = groups[k % len(groups)]
+                    extra.append({"path": "nodes/r%02d.yml" % k, "content": {"classes": ["rdefs", "%s.entry" % g]}})
+                c["files"].extend(extra)
                 c["repeat"] = 1
             if i % 2 == 0:
                 # cross-node application negations
